@@ -8,6 +8,8 @@ import Driver.SelFam
 import Driver.PlushyFam
 import Driver.PushFam
 import Driver.BuilderFam
+import Driver.XoFam
+import Driver.MutFam
 open Driver
 
 def dispatch (stdin stdout : IO.FS.Stream) (line : String) : IO String := do
@@ -18,6 +20,8 @@ def dispatch (stdin stdout : IO.FS.Stream) (line : String) : IO String := do
   | "push" :: args => pure (PushFam.handle args)
   | "builder" :: args => pure (BuilderFam.handle args)
   | "lexspec" :: args => pure (SelFam.handleSpec args)
+  | "xo" :: args => XoFam.handle stdin stdout args
+  | "mut" :: args => MutFam.handle stdin stdout args
   | "ping" :: _ => pure "pong"
   | _ => pure "bad-family"
 
